@@ -304,7 +304,7 @@ package corerad
 
 //@ func pick
 //@   requires P1: optsOK(options)
-//@   assigns new mem(*ndp.MTU)
+//@   assigns new mem($T)
 //@   loop 1 invariant I0 [C12,C17,C18]: 0 <= rangeindex + 1 && rangeindex + 1 <= len(options) && (ts == nil || fresh(ts))
 //@   loop 1 invariant I1 [C12,C17,C18]: len(ts) == countTag(arr(options), rangeindex + 1, tagOf("$T"))
 //@   loop 1 invariant I2 [C12,C17,C18]: forall(j, 0, rangeindex + 1, isType(options[j], "$T") ==> ts[countTag(arr(options), j, tagOf("$T"))] == as(options[j], "$T"))
@@ -353,7 +353,7 @@ package corerad
 // reported is not proved deductively; see the bounded stand-in in /verif.)
 //@ func checkPrefixes
 //@   requires P1: optsOK(want) && optsOK(got)
-//@   assigns new heap(corerad.problems), new mem(corerad.problem), new mem(*ndp.MTU)
+//@   assigns new heap(corerad.problems), new mem(corerad.problem), new mem(*ndp.PrefixInformation)
 //@   loop 1 invariant Q0 [C12]: 0 <= rangeindex1 + 1 && rangeindex1 + 1 <= len(piA) && forall(i, 0, len(piA), piA[i] != nil) && forall(j, 0, len(piB), piB[j] != nil)
 //@   loop 1 invariant Q1 [C12]: forall(k, 0, len(ps), exists(i, 0, len(piA), exists(j, 0, len(piB), piMatch(piA[i], piB[j]) && piProblem(ps[k], piA[i], piB[j]) && ps[k].Details == cidrStrOf(piA[i].Prefix, piA[i].PrefixLength))))
 //@   loop 2 invariant Q3 [C12]: 0 <= rangeindex2 + 1 && rangeindex2 + 1 <= len(piB) && rangeindex1 + 1 < len(piA) && a == piA[rangeindex1 + 1]
@@ -367,7 +367,7 @@ package corerad
 //@ macro riProblem(p, x, y) = p.Field == "route_information_lifetime" && x.Preference == y.Preference && x.RouteLifetime != y.RouteLifetime
 //@ func checkRoutes
 //@   requires P1: optsOK(want) && optsOK(got)
-//@   assigns new heap(corerad.problems), new mem(corerad.problem), new mem(*ndp.MTU)
+//@   assigns new heap(corerad.problems), new mem(corerad.problem), new mem(*ndp.RouteInformation)
 //@   loop 1 invariant Q0 [C12]: 0 <= rangeindex1 + 1 && rangeindex1 + 1 <= len(riA) && forall(i, 0, len(riA), riA[i] != nil) && forall(j, 0, len(riB), riB[j] != nil)
 //@   loop 1 invariant Q1 [C12]: forall(k, 0, len(ps), exists(i, 0, len(riA), exists(j, 0, len(riB), riMatch(riA[i], riB[j]) && riProblem(ps[k], riA[i], riB[j]) && ps[k].Details == cidrStrOf(riA[i].Prefix, riA[i].PrefixLength))))
 //@   loop 2 invariant Q3 [C12]: 0 <= rangeindex2 + 1 && rangeindex2 + 1 <= len(riB) && rangeindex1 + 1 < len(riA) && a == riA[rangeindex1 + 1]
@@ -392,7 +392,7 @@ package corerad
 
 //@ func checkRDNSS
 //@   requires P1: optsOK(want) && optsOK(got)
-//@   assigns new heap(corerad.problems), new mem(corerad.problem), new mem(*ndp.MTU)
+//@   assigns new heap(corerad.problems), new mem(corerad.problem), new mem(*ndp.RecursiveDNSServer)
 //@   loop 1 invariant D0 [C12]: 0 <= rangeindex1 + 1 && rangeindex1 + 1 <= len(dnsA) && len(dnsA) == len(dnsB) && len(dnsA) > 0 && forall(i, 0, len(dnsA), dnsA[i] != nil && dnsB[i] != nil)
 //@   loop 1 invariant D1 [C12]: forall(k, 0, len(ps), exists(i, 0, len(dnsA), rdnssProblem(ps[k], dnsA[i], dnsB[i])))
 //@   loop 2 invariant D2 [C12]: 0 <= rangeindex2 + 1 && rangeindex2 + 1 <= len(dnsA[i].Servers) && len(dnsA[i].Servers) == len(dnsB[i].Servers) && 0 <= i && i < len(dnsA) && i == rangeindex1 + 1
@@ -409,7 +409,7 @@ package corerad
 
 //@ func checkDNSSL
 //@   requires P1: optsOK(want) && optsOK(got)
-//@   assigns new heap(corerad.problems), new mem(corerad.problem), new mem(*ndp.MTU)
+//@   assigns new heap(corerad.problems), new mem(corerad.problem), new mem(*ndp.DNSSearchList)
 //@   loop 1 invariant D0 [C12]: 0 <= rangeindex1 + 1 && rangeindex1 + 1 <= len(dnsA) && len(dnsA) == len(dnsB) && len(dnsA) > 0 && forall(i, 0, len(dnsA), dnsA[i] != nil && dnsB[i] != nil)
 //@   loop 1 invariant D1 [C12]: forall(k, 0, len(ps), exists(i, 0, len(dnsA), dnsslProblem(ps[k], dnsA[i], dnsB[i])))
 //@   loop 2 invariant D2 [C12]: 0 <= rangeindex2 + 1 && rangeindex2 + 1 <= len(dnsA[i].DomainNames) && len(dnsA[i].DomainNames) == len(dnsB[i].DomainNames) && 0 <= i && i < len(dnsA) && i == rangeindex1 + 1
@@ -423,7 +423,7 @@ package corerad
 
 //@ func verifyRAs
 //@   requires P1: a != nil && b != nil && optsOK(a.Options) && optsOK(b.Options)
-//@   assigns new heap(corerad.problems), new mem(corerad.problem), new mem(*ndp.MTU)
+//@   assigns new heap(corerad.problems), new mem(corerad.problem), new mem(*ndp.DNSSearchList), new mem(*ndp.PrefixInformation), new mem(*ndp.RecursiveDNSServer), new mem(*ndp.RouteInformation)
 //@   opt safety [C12]
 //@   opt frame [C12]
 
@@ -442,7 +442,7 @@ package corerad
 //@   ghost local nproblems Int
 //@   requires P1: advOK(a) && ifiOK(a.cfg) && m != nil && m.val > 0
 //@   requires P2: isRA(m) ==> optsOK(as(m, "*ndp.RouterAdvertisement").Options)
-//@   assigns new heap(ndp.RouterAdvertisement), new mem(ndp.Option), new heap(ndp.PrefixInformation), new heap(ndp.RouteInformation), new heap(ndp.RecursiveDNSServer), new heap(ndp.DNSSearchList), new heap(ndp.MTU), new heap(ndp.LinkLayerAddress), new mem(netip.Addr), new mem(netip.Prefix), new mem(system.IP), new mem(system.Route), new mem(config.Misconfiguration), new heap(corerad.problems), new mem(corerad.problem), new mem(*ndp.MTU), ghost.clockRead, ghost.lastAddrs, ghost.lastRoutes, ghost.fwdVal, ghost.fwdName, ghost.fwdFresh, ghost.advReceived, ghost.invalid, ghost.inconsistencies, ghost.hookCalls
+//@   assigns new heap(ndp.RouterAdvertisement), new mem(ndp.Option), new heap(ndp.PrefixInformation), new heap(ndp.RouteInformation), new heap(ndp.RecursiveDNSServer), new heap(ndp.DNSSearchList), new heap(ndp.MTU), new heap(ndp.LinkLayerAddress), new mem(netip.Addr), new mem(netip.Prefix), new mem(system.IP), new mem(system.Route), new mem(config.Misconfiguration), new heap(corerad.problems), new mem(corerad.problem), new mem(*ndp.DNSSearchList), new mem(*ndp.PrefixInformation), new mem(*ndp.RecursiveDNSServer), new mem(*ndp.RouteInformation), ghost.clockRead, ghost.lastAddrs, ghost.lastRoutes, ghost.fwdVal, ghost.fwdName, ghost.fwdFresh, ghost.advReceived, ghost.invalid, ghost.inconsistencies, ghost.hookCalls
 //@   at call verifyRAs(va, vb) (vps): ghost.nproblems = len(vps)
 //@   loop 1 invariant L0 [C12]: 0 <= rangeindex + 1 && rangeindex + 1 <= len(problems) && ghost.inconsistencies == old(ghost.inconsistencies) + rangeindex + 1 && ghost.hookCalls == old(ghost.hookCalls) && ghost.invalid == old(ghost.invalid) && ghost.advReceived == old(ghost.advReceived) + 1 && len(problems) == ghost.nproblems && advOK(a)
 //@   ensures H1 [C07]: isRS(m) ==> result1 == nil && result0 == ite(addrIsUnspecified(host), allNodesAddr, host)
@@ -495,7 +495,7 @@ package corerad
 //@ func (*Monitor).handle
 //@   ghost local tnow Int
 //@   requires P1: monOK(m) && msgOK(msg) && (isRA(msg) ==> raWireOK(as(msg, "*ndp.RouterAdvertisement")))
-//@   assigns new mem(*ndp.MTU), ghost.monReceived, ghost.monSamples, ghost.monDefaultRoute
+//@   assigns new mem(*ndp.PrefixInformation), ghost.monReceived, ghost.monSamples, ghost.monDefaultRoute
 //@   at call now() (tn): ghost.tnow = tn
 //@   at call MonMessagesReceivedTotal(v, labels): assert R1 [C18]: v == real(1) && len(labels) == 3 && labels[0] == m.iface && labels[1] == host
 //@   at call MonFlagManaged(v, labels): assert F1 [C18]: v == ite(as(msg, "*ndp.RouterAdvertisement").ManagedConfiguration, real(1), real(0)) && len(labels) == 2 && labels[0] == m.iface && labels[1] == host
@@ -511,3 +511,62 @@ package corerad
 //@   ensures E3 [C18,C09]: !isRA(msg) ==> ghost.monSamples == old(ghost.monSamples) && ghost.monDefaultRoute == old(ghost.monDefaultRoute)
 //@   opt safety [C18]
 //@   opt frame [C18]
+
+// ---------------------------------------------------------------------------
+// metrics.go: const metrics scrape (C17, C04)
+
+//@ ghost var samples Int
+//@ funcvalue functype:func[float64,...string](v, labels)
+//@   assigns ghost.samples
+//@   ensures S1: ghost.samples == old(ghost.samples) + 1
+
+//@ func stringerStr
+//@   ensures E1 [C17]: result == stringerStrOf(strs.ref, len(strs))
+//@   opt trusted joins the String() forms of the servers for a label
+
+//@ macro knownConstMetric(k) = k == "corerad_interface_advertising" || k == "corerad_interface_autoconfiguration" || k == "corerad_interface_forwarding" || k == "corerad_interface_monitoring" || k == "corerad_advertiser_misconfiguration" || k == "corerad_advertiser_dnssl_lifetime_seconds" || k == "corerad_advertiser_prefix_autonomous" || k == "corerad_advertiser_prefix_on_link" || k == "corerad_advertiser_prefix_valid_seconds" || k == "corerad_advertiser_prefix_preferred_seconds" || k == "corerad_advertiser_rdnss_lifetime_seconds" || k == "corerad_advertiser_route_lifetime_seconds"
+//@ macro b2f(b) = ite(b, real(1), real(0))
+//@ macro durSec(d) = real(d) / real(1000000000)
+
+//@ func collectMetrics
+//@   requires P1: metrics != nil && forall(k, "Int", has(metrics, k) ==> knownConstMetric(k) && metrics[k] != nil)
+//@   requires P2: mctx.Advertisement != nil ==> optsOK(mctx.Advertisement.Options)
+//@   requires P3: forall(k, 0, len(mctx.Misconfigurations), mctx.Misconfigurations[k] == 1)
+//@   assigns new mem(*ndp.DNSSearchList), new mem(*ndp.PrefixInformation), new mem(*ndp.RecursiveDNSServer), new mem(*ndp.RouteInformation), ghost.samples
+//@   loop 1 invariant L1 [C17]: forall(k, 0, len(prefixes), prefixes[k] != nil) && forall(k, 0, len(routes), routes[k] != nil) && forall(k, 0, len(rdnss), rdnss[k] != nil) && forall(k, 0, len(dnssl), dnssl[k] != nil) && (mctx.Advertisement == nil ==> len(prefixes) == 0 && len(routes) == 0 && len(rdnss) == 0 && len(dnssl) == 0)
+//@   loop 2 invariant L2 [C17]: 0 <= rangeindex + 1 && rangeindex + 1 <= len(mctx.Misconfigurations) && c != nil
+//@   loop 3 invariant L3 [C17]: 0 <= rangeindex + 1 && rangeindex + 1 <= len(dnssl) && c != nil
+//@   loop 4 invariant L4 [C17]: 0 <= rangeindex + 1 && rangeindex + 1 <= len(prefixes) && c != nil
+//@   loop 5 invariant L5 [C17]: 0 <= rangeindex + 1 && rangeindex + 1 <= len(rdnss) && c != nil
+//@   loop 6 invariant L6 [C17]: 0 <= rangeindex + 1 && rangeindex + 1 <= len(routes) && c != nil
+//@   at call c(v, labels) when rangekey(1) == "corerad_interface_advertising": assert A1 [C17]: v == b2f(mctx.Advertising) && len(labels) == 1 && labels[0] == mctx.Interface
+//@   at call c(v, labels) when rangekey(1) == "corerad_interface_autoconfiguration": assert A2 [C17]: v == b2f(mctx.Autoconfiguration) && len(labels) == 1 && labels[0] == mctx.Interface
+//@   at call c(v, labels) when rangekey(1) == "corerad_interface_forwarding": assert A3 [C17,C04]: v == b2f(mctx.Forwarding) && len(labels) == 1 && labels[0] == mctx.Interface
+//@   at call c(v, labels) when rangekey(1) == "corerad_interface_monitoring": assert A4 [C17]: v == b2f(mctx.Monitoring) && len(labels) == 1 && labels[0] == mctx.Interface
+//@   at call c(v, labels) when rangekey(1) == "corerad_advertiser_misconfiguration": assert A5 [C17,C04]: v == real(1) && len(labels) == 2 && labels[0] == mctx.Interface && labels[1] == "interface_not_forwarding"
+//@   at call c(v, labels) when rangekey(1) == "corerad_advertiser_dnssl_lifetime_seconds": assert A6 [C17]: v == durSec(d.Lifetime) && len(labels) == 2 && labels[0] == mctx.Interface && labels[1] == joinOf(d.DomainNames.ref, len(d.DomainNames), ", ")
+//@   at call c(v, labels) when rangekey(1) == "corerad_advertiser_prefix_autonomous": assert A7 [C17]: v == b2f(p.AutonomousAddressConfiguration) && len(labels) == 2 && labels[0] == mctx.Interface && labels[1] == cidrStrOf(p.Prefix, p.PrefixLength)
+//@   at call c(v, labels) when rangekey(1) == "corerad_advertiser_prefix_on_link": assert A8 [C17]: v == b2f(p.OnLink) && len(labels) == 2 && labels[0] == mctx.Interface && labels[1] == cidrStrOf(p.Prefix, p.PrefixLength)
+//@   at call c(v, labels) when rangekey(1) == "corerad_advertiser_prefix_valid_seconds": assert A9 [C17]: v == durSec(p.ValidLifetime) && len(labels) == 2 && labels[0] == mctx.Interface && labels[1] == cidrStrOf(p.Prefix, p.PrefixLength)
+//@   at call c(v, labels) when rangekey(1) == "corerad_advertiser_prefix_preferred_seconds": assert A10 [C17]: v == durSec(p.PreferredLifetime) && len(labels) == 2 && labels[0] == mctx.Interface && labels[1] == cidrStrOf(p.Prefix, p.PrefixLength)
+//@   at call c(v, labels) when rangekey(1) == "corerad_advertiser_rdnss_lifetime_seconds": assert A11 [C17]: v == durSec(r.Lifetime) && len(labels) == 2 && labels[0] == mctx.Interface && labels[1] == stringerStrOf(r.Servers.ref, len(r.Servers))
+//@   at call c(v, labels) when rangekey(1) == "corerad_advertiser_route_lifetime_seconds": assert A12 [C17]: v == durSec(r.RouteLifetime) && len(labels) == 2 && labels[0] == mctx.Interface && labels[1] == cidrStrOf(r.Prefix, r.PrefixLength)
+//@   opt safety [C17]
+//@   opt frame [C17]
+
+//@ func (*Metrics).constScrape$1
+//@   ensures E1: result != nil
+//@   opt trusted builds a ScrapeError value from a format string
+
+//@ iface system.State.IPv6Autoconf2(self, iface) (v, err)
+
+// constScrape: per configured interface read the live autoconf and forwarding
+// state, regenerate the RA with that forwarding flag and report on it.
+//@ func (*Metrics).constScrape
+//@   requires P1: m.state != nil && metrics != nil && forall(k, "Int", has(metrics, k) ==> knownConstMetric(k) && metrics[k] != nil)
+//@   requires P2: forall(i, 0, len(m.ifis), ifiOK(m.ifis[i]))
+//@   assigns new heap(ndp.RouterAdvertisement), new mem(ndp.Option), new heap(ndp.PrefixInformation), new heap(ndp.RouteInformation), new heap(ndp.RecursiveDNSServer), new heap(ndp.DNSSearchList), new heap(ndp.MTU), new heap(ndp.LinkLayerAddress), new mem(netip.Addr), new mem(netip.Prefix), new mem(system.IP), new mem(system.Route), new mem(config.Misconfiguration), new mem(*ndp.DNSSearchList), new mem(*ndp.PrefixInformation), new mem(*ndp.RecursiveDNSServer), new mem(*ndp.RouteInformation), ghost.clockRead, ghost.lastAddrs, ghost.lastRoutes, ghost.fwdVal, ghost.fwdName, ghost.fwdFresh, ghost.samples
+//@   loop 1 invariant L1 [C17,C04]: 0 <= rangeindex + 1 && rangeindex + 1 <= len(m.ifis) && m.state != nil && metrics != nil && forall(k, "Int", has(metrics, k) ==> knownConstMetric(k) && metrics[k] != nil) && forall(i, 0, len(m.ifis), ifiOK(m.ifis[i]))
+//@   at call collectMetrics(cm, cctx): assert S1 [C17,C04]: cctx.Interface == ifi.Name && cctx.Advertising == ifi.Advertise && cctx.Monitoring == ifi.Monitor && cctx.Autoconfiguration == auto && cctx.Forwarding == fwd && (ifi.Advertise ==> cctx.Advertisement != nil && fwd == ghost.fwdVal && ghost.fwdName == ifi.Name && cctx.Advertisement.RouterLifetime == ite(fwd, ifi.DefaultLifetime, 0) && raHeaderFrom(cctx.Advertisement, ifi) && len(cctx.Misconfigurations) == b2i(!fwd && ifi.DefaultLifetime > 0)) && (!ifi.Advertise ==> cctx.Advertisement == nil && len(cctx.Misconfigurations) == 0)
+//@   opt safety [C17]
+//@   opt frame [C17]
